@@ -771,6 +771,7 @@ theorem Att.step {s : St} (i : In) (a : Att s) : Att (step s i).1 := by
     split
     · exact a
     · exact a.of4 (SameAtt.of_tables rfl rfl) rfl rfl rfl rfl
+  | newConsensus => exact a
   | addrMap name ip =>
     simp only [TxV.TorState.step, addrUpdate]
     split
